@@ -166,7 +166,6 @@ struct GovWorld {
     initial_supply: BigUint,
     ledger: Vec<Ledger>,
     pending: Vec<(char, String)>,
-    len: u64,
 }
 
 impl GovWorld {
@@ -396,7 +395,6 @@ impl World for GovWorld {
         let period = kv_u64(header, "period", 14_400);
         let wpct = kv_u64(header, "wpct", 5000);
         let nusers = kv_u64(header, "users", 4);
-        let len = kv_u64(header, "len", 60);
         let mut b = BlockchainStateWrapper::new();
         let owner = b.create_user_account(&zero);
         let funds = pow10(33);
@@ -434,7 +432,7 @@ impl World for GovWorld {
         b.set_esdt_local_roles(gov.address_ref(), FEE_TOKEN, &[EsdtLocalRole::Mint, EsdtLocalRole::Burn]);
         b.set_block_nonce(0);
         let initial_supply = &funds * BigUint::from(nusers);
-        GovWorld { b, owner, users, gov, ef, fc, block: 0, initial_supply, ledger: vec![], pending: vec![], len }
+        GovWorld { b, owner, users, gov, ef, fc, block: 0, initial_supply, ledger: vec![], pending: vec![] }
     }
 
     fn gen_line(&mut self, rng: &mut Rng, step: u64, _tier: &str) -> (char, String) {
@@ -478,7 +476,7 @@ impl World for GovWorld {
                 }
                 return ('O', format!("propose {} {}", who, s.min_fee));
             }
-        } else if rng.chance(3, 4) {
+        } else if rng.chance(2, 3) {
             let id = *rng.pick(&open);
             let l = self.ledger[(id - 1) as usize].clone();
             let st = s.props[(id - 1) as usize].status.clone();
